@@ -427,5 +427,62 @@ pub fn run(ctx: &Ctx) -> Report {
     }
   }
   report.model_requests = model.requests;
+  several_trackers(ctx, &mut report);
   report
+}
+
+/// A torrent with two UDP trackers: what one of them does must not hide what the other did. Each tracker whose reply is not
+/// acceptable is reported on standard error, whether or not the other one returned peers, and the peers of the good one are printed.
+fn several_trackers(ctx: &Ctx, report: &mut Report) {
+  let want: Option<Vec<String>> = super::replay_cases(ctx).map(|rc| rc.iter().filter_map(|v| v.get("pair").and_then(|l| l.as_str()).map(|l| l.to_string())).collect());
+  let good_peers: Vec<u8> = vec![10, 1, 2, 3, 0x1a, 0xe1, 10, 1, 2, 4, 0x1a, 0xe2];
+  let bads: Vec<(&str, Resp)> = vec![
+    ("wrong-tid", Resp::WrongTid(ann_payload(&[10, 9, 9, 9, 0, 80]))),
+    ("error-action", Resp::Action(3, b"go away".to_vec())),
+    ("short-header", Resp::Truncated(10, ann_payload(&[10, 9, 9, 9, 0, 80]))),
+    ("ragged-list", Resp::Correct(ann_payload(&[10, 9, 9, 9, 0]))),
+  ];
+  let mut pairs: Vec<(String, Vec<Resp>, Vec<Resp>)> = Vec::new();
+  for (n, b) in &bads {
+    pairs.push((format!("{n}+good"), vec![b.clone()], vec![Resp::Correct(ann_payload(&good_peers))]));
+    pairs.push((format!("good+{n}"), vec![Resp::Correct(ann_payload(&good_peers))], vec![b.clone()]));
+  }
+  pairs.push(("wrong-tid+error-action".into(), vec![bads[0].1.clone()], vec![bads[1].1.clone()]));
+  pairs.push(("ragged-list+short-header".into(), vec![bads[3].1.clone()], vec![bads[2].1.clone()]));
+  for (label, first, second) in pairs {
+    if let Some(w) = &want {
+      if !w.contains(&label) {
+        continue;
+      }
+    }
+    let sims = [Sim::start(false, vec![Resp::Correct(cid_bytes(1))], first), Sim::start(false, vec![Resp::Correct(cid_bytes(2))], second)];
+    let urls: Vec<String> = sims.iter().map(|s| format!("udp://127.0.0.1:{}/announce", s.addr.port())).collect();
+    let info = B::dict(vec![("name", B::s("n")), ("piece length", B::Int(16384)), ("pieces", B::Bytes(vec![9; 20])), ("length", B::Int(5)), ("x-salt", B::s(&label))]);
+    // (the two trackers in one tier or in a tier each)
+    let tiers = if fnv_str(&label) % 2 == 0 { B::List(vec![B::List(urls.iter().map(|u| B::s(u)).collect())]) } else { B::List(urls.iter().map(|u| B::List(vec![B::s(u)])).collect()) };
+    let torrent = B::dict(vec![("info", info), ("announce", B::s(&urls[0])), ("announce-list", tiers)]).encode();
+    let sb = Sandbox::new(&ctx.work, "c12p");
+    sb.write("t.torrent", &torrent);
+    let out = Cmd::new(&ctx.imdl, &["torrent", "announce", "--input", "t.torrent"]).cwd(&sb.root).timeout_s(60).run();
+    let [a, b] = sims;
+    let seen = [a.finish(), b.finish()];
+    let case = json!({"pair": label});
+    report.case(Some(fnv_str(&format!("pair:{label}"))));
+    report.hit("scenario:two-trackers");
+    let failing = label.split('+').filter(|p| *p != "good").count();
+    let err = out.stderr_s();
+    let reports = err.lines().filter(|l| { let l = l.to_lowercase(); l.contains("fail") || l.contains("error") }).count();
+    let mut printed: Vec<String> = out.stdout_s().lines().map(|l| l.to_string()).collect();
+    printed.sort();
+    let expect: Vec<String> = if failing == 1 { vec!["10.1.2.3:6881".into(), "10.1.2.4:6882".into()] } else { vec![] };
+    if out.signal.is_some() || !(out.code == Some(0) || out.code == Some(1)) {
+      report.fail("property", "abnormal-termination", case, format!("{}: {err}", out.status_s()));
+    } else if seen.iter().any(|s| !s.iter().any(|d| d.data.len() == 98)) {
+      report.fail("property", "tracker-not-asked", case, format!("announce requests received by the two trackers: {:?}", seen.iter().map(|s| s.iter().filter(|d| d.data.len() == 98).count()).collect::<Vec<_>>()));
+    } else if printed != expect {
+      report.fail("property", "printed-peers-differ-from-accepted-reply", case, format!("printed {printed:?}, the one acceptable reply holds {expect:?}"));
+    } else if reports < failing {
+      report.fail("property", "failure-not-reported", case, format!("{failing} tracker(s) sent an unacceptable announce reply, standard error reports {reports}: {err:?}"));
+    }
+  }
 }
